@@ -354,7 +354,8 @@ class FreeEnergy(InterpolatableFunction):
             while ode.status == "running":
                 try:
                     ode.step()
-                except RuntimeWarning as error:
+                except (RuntimeWarning, np.linalg.LinAlgError) as error:
+                    # singular or ill-conditioned Hessian: a mass squared has reached zero
                     logging.error(error.args[0] + f" at T={ode.t}")
                     break
                 if paranoid:
